@@ -396,6 +396,13 @@ func (w *world) enabled(t *thread) bool {
 		}
 		return true
 	case "idx":
+		if tlLock && t.at == "c07.aidx.ids" { // next is TokenList.Append: it takes appendMu, held by a writer parked inside Append
+			for _, n := range w.order {
+				if o := w.threads[n]; o.kind == "idx" && !o.fin && o.at == "c07.tl.got" {
+					return false
+				}
+			}
+		}
 		return true
 	case "seal":
 		switch t.at {
@@ -461,13 +468,19 @@ func b2i(b bool) int64 {
 	return 0
 }
 
+// tlLock: TokenList.Append is one critical section in the code under test (asked from the Lean driver, which reads
+// it off the extracted facts); only the scheduler's blocking mirror uses it
+var tlLock bool
+
+var errNotEnabled = fmt.Errorf("thread is not enabled")
+
 func (w *world) step(name string) error {
 	t := w.threads[name]
 	if t == nil {
-		return fmt.Errorf("no thread %s", name)
+		return fmt.Errorf("no thread %s: %w", name, errNotEnabled)
 	}
 	if !w.enabled(t) {
-		return fmt.Errorf("thread %s is not enabled at %q", name, t.at)
+		return fmt.Errorf("thread %s at %q: %w", name, t.at, errNotEnabled)
 	}
 	w.ops = append(w.ops, "go "+name)
 	switch t.kind {
